@@ -44,6 +44,7 @@ WellFormed(c) == KeyMatches(c) /\ OrderComplete(c) /\ MembersUnique(c)
 (* Instance variants (depth 1: children are empty instances of their class) *)
 (***************************************************************************)
 MaxCount(ch) == IF ch.list THEN 3 ELSE 1
+Unq(c) == {k \in 1..Len(Attrs(c)) : ~Attrs(c)[k].qualified}
 RtVariants(c) ==
     {[cls |-> c, kind |-> "empty", which |-> "", n |-> 0]}
     \cup {[cls |-> c, kind |-> "attr", which |-> Attrs(c)[k].member, n |-> 1] : k \in 1..Len(Attrs(c))}
@@ -52,6 +53,10 @@ RtVariants(c) ==
              k \in {j \in 1..Len(Children(c)) : Children(c)[j].cls \in Classes}, n \in 1..3}
     \cup {[cls |-> c, kind |-> "allchildren", which |-> "", n |-> 1]}
     \cup {[cls |-> c, kind |-> x, which |-> "", n |-> 1] : x \in {"foreign_child", "foreign_attr", "text_special", "text_unicode"}}
+    \* an attribute the class does not know whose qualified name looks like a declared one: the element's own namespace
+    \* plus the local name of the first declared (unqualified) attribute; alone and next to the declared attribute
+    \cup {[cls |-> c, kind |-> x, which |-> Attrs(c)[k].member, n |-> 1] : x \in {"ownns_attr", "ownns_attr_both"},
+             k \in (IF Unq(c) = {} THEN {} ELSE {CHOOSE k \in Unq(c) : \A j \in Unq(c) : k <= j})}
 RtOK(v) == v.kind = "child" => v.n <= MaxCount(Children(v.cls)[ChildBy(v.cls, v.which)])
 
 \* how many instances of member m the variant holds
